@@ -790,6 +790,12 @@ def run_init(case):
                 fresh = None
             if fresh is not None:
                 shards = list(fresh._shards) if kind == 'fanout' else [fresh.cache if kind in ('deque', 'index') else fresh]
+                if kind == 'fanout' and 'size_limit' not in cfg['settings']:
+                    # however far the first open got: the total size limit (1 GiB by default) is divided among all shards
+                    limits = [sh.size_limit for sh in shards]
+                    if any(x != 2 ** 30 / cfg['shards'] for x in limits):
+                        violations.append({'rule': 'C07/size-limit-not-divided', 'sig': 'after-interrupted-first-open',
+                                           'detail': 'shard size limits %s after the interrupted first open, expected %s each' % (limits, 2 ** 30 / cfg['shards'])})
                 for who in ('v', 's'):
                     if who + ':written' not in marks:
                         continue
